@@ -60,10 +60,10 @@ class _VF:
         return iter(self._records)
 
 
-def make_record(ctx, k, chrom, sample_names, som_choices=(False, True), fields="DP+AD", rich=True):
+def make_record(ctx, k, chrom, sample_names, som_choices=(False, True), fields="DP+AD", rich=True, plain_numbers=False):
     """rich: allele kind, SOMATIC flag and genotypes are solver-chosen; otherwise the record is a plain
     heterozygous SNV (its numbers stay symbolic) -- one rich record per table keeps the case split small."""
-    start = ctx.int(f"pos{k}", 0, M)
+    start = ctx.int(f"pos{k}", 0, M) if not (plain_numbers and not rich) else 500 + 10 * k
     kind = ctx.choice(f"kind{k}", ["snv", "ins", "sv"]) if rich else "snv"
     info = {}
     if kind == "snv":
@@ -84,9 +84,12 @@ def make_record(ctx, k, chrom, sample_names, som_choices=(False, True), fields="
     exp = {}
     for nm in sample_names:
         gt = ctx.choice(f"gt{k}{nm}", [(0, 0), (0, 1), (1, 1)]) if rich else (0, 1)
-        ad_ref = ctx.int(f"adr{k}{nm}", 0, 500)
-        ad_alt = ctx.int(f"ada{k}{nm}", 0, 500)
-        dp = ctx.int(f"dp{k}{nm}", 0, 1000)
+        if plain_numbers and not rich:
+            ad_ref, ad_alt, dp = 40, 60, 100
+        else:
+            ad_ref = ctx.int(f"adr{k}{nm}", 0, 500)
+            ad_alt = ctx.int(f"ada{k}{nm}", 0, 500)
+            dp = ctx.int(f"dp{k}{nm}", 0, 1000)
         d = {"GT": gt}
         if "DP" in fields:
             d["DP"] = dp
@@ -101,11 +104,11 @@ def make_record(ctx, k, chrom, sample_names, som_choices=(False, True), fields="
     return _Rec(chrom, start, ref, alts, info, samples), (start, end, som, exp, alts[0], ref)
 
 
-def h_rows(ctx, sample_names, pedigree, sel, normal_sel, order, skip_somatic, n=2, fields="DP+AD"):
+def h_rows(ctx, sample_names, pedigree, sel, normal_sel, order, skip_somatic, n=2, fields="DP+AD", plain=False):
     chroms = ["chr1", "chr1", "chr2"][:n]
     recs, exps = [], []
     for k in range(n):
-        r, e = make_record(ctx, k, chroms[k], sample_names, fields=fields, rich=(k == 0))
+        r, e = make_record(ctx, k, chroms[k], sample_names, fields=fields, rich=(k == 0), plain_numbers=plain)
         recs.append(r)
         exps.append(e)
     for i in range(n):
@@ -204,12 +207,12 @@ def h_rows(ctx, sample_names, pedigree, sel, normal_sel, order, skip_somatic, n=
     ctx.cover("record dropped", len(got) < n)
 
 
-def h_het(ctx, tumor_boost):
+def h_het(ctx, tumor_boost, zygosity_freq=None):
     """load_het_snps keeps exactly the germline-heterozygous records."""
     names = ["T", "N"]
     recs, exps = [], []
     for k in range(2):
-        r, e = make_record(ctx, k, "chr1", names, som_choices=(False,), rich=(k == 0))
+        r, e = make_record(ctx, k, "chr1", names, som_choices=(False,), rich=(k == 0), fields=("AD" if zygosity_freq is not None else "DP+AD"), plain_numbers=zygosity_freq is not None)
         recs.append(r)
         exps.append(e)
     ctx.assume(exps[0][0] != exps[1][0])
@@ -221,7 +224,7 @@ def h_het(ctx, tumor_boost):
     orig = vcfio.pysam
     vcfio.pysam = _Pysam
     try:
-        varr = cmdutil.load_het_snps("x.vcf", None, None, 0, None, False)
+        varr = cmdutil.load_het_snps("x.vcf", None, None, 0, zygosity_freq, False)
     except Exception as exc:
         ctx.claim(False, f"load_het_snps raised {type(exc).__name__}", info=str(exc)[:200])
         return
@@ -230,7 +233,24 @@ def h_het(ctx, tumor_boost):
     got = list(varr.data.itertuples(index=False))
     nz = [e[3]["N"][2] for e in exps]
     tz = [e[3]["T"][2] for e in exps]
-    if all(z == 0.0 for z in nz):
+    if zygosity_freq is not None:
+        # genotypes are re-derived from the allele frequencies: het where zygosity_freq <= f < 1 - zygosity_freq
+        def zy(depth, alt):
+            if alt is None or not bool(depth > 0):
+                return None
+            if bool(alt >= (1 - zygosity_freq) * depth):
+                return 1.0
+            if bool(alt < zygosity_freq * depth):
+                return 0.0
+            return 0.5
+
+        tzf = [zy(e[3]["T"][0], e[3]["T"][1]) for e in exps]
+        nzf = [zy(e[3]["N"][0], e[3]["N"][1]) for e in exps]
+        if any(z is None for z in tzf + nzf):
+            return  # depth 0 / no AD: frequency undefined, not claimed
+        tz, nz = tzf, nzf
+        ctx.cover("genotypes from frequencies")
+    elif all(z == 0.0 for z in nz):
         return  # Mutect2 work-around path (genotypes re-inferred from frequencies): not claimed here
     # drop somatic-by-genotype (tumour non-ref, normal hom-ref), then keep normal-heterozygous ones if any
     left = [k for k in range(2) if not (tz[k] != 0.0 and nz[k] == 0.0)]
@@ -301,13 +321,16 @@ def _rows_cfgs():
                 c["tier"] = "thorough"
             out.append(c)
     out.append({"sample_names": ["N", "T"], "pedigree": ["T", "N"], "sel": None, "normal_sel": None, "order": [0, 1], "skip_somatic": False})
+    # a third sample: the PEDIGREE pair wins over "every other sample is a tumour of the given normal"
+    out.append({"sample_names": ["SIB", "T", "N"], "pedigree": ["T", "N"], "sel": None, "normal_sel": "N", "order": [0, 1], "skip_somatic": False, "fields": "DP", "plain": True})
+    out.append({"sample_names": ["SIB", "T", "N"], "pedigree": ["T", "N"], "sel": "T", "normal_sel": "SIB", "order": [0, 1], "skip_somatic": False, "fields": "DP", "plain": True})
     out.append({"sample_names": ["S"], "pedigree": None, "sel": None, "normal_sel": None, "order": [2, 0, 1], "skip_somatic": False, "n": 3, "tier": "thorough"})
     return out
 
 
 HARNESSES = [
     Harness("rows", h_rows, _rows_cfgs(), covers=["record kept", "record dropped"], wall_s=400, thorough_wall_s=1800),
-    Harness("load_het_snps", h_het, [{"tumor_boost": False}], covers=["dropped a homozygous record"], wall_s=300),
+    Harness("load_het_snps", h_het, [{"tumor_boost": False}, {"tumor_boost": False, "zygosity_freq": 0.0}, {"tumor_boost": False, "zygosity_freq": 0.25, "tier": "thorough"}], covers=["dropped a homozygous record", "genotypes from frequencies"], wall_s=300),
     Harness("baf_by_ranges", h_baf, [{"above_half": None}, {"above_half": True}, {"above_half": False}], covers=["empty range", "two variants in a range"], wall_s=300),
     Harness("formulas", h_formulas, [{}], covers=["reached"]),
 ]
